@@ -29,10 +29,14 @@ COMPONENTS_REAL = [
     "gapic/ generator (schema, templates, formatter) from /repo working tree",
     "emitted client library (clients, transports, pagers, types) imported in-process",
     "google-api-core (retry, timeout, gapic_v1.method, grpc_helpers[_async], operation futures, path_template, rest_streaming)",
-    "proto-plus, protobuf (upb)", "requests above HTTPAdapter.send", "google-auth AuthorizedSession",
+    "proto-plus, protobuf (upb)", "requests above HTTPAdapter.send", "google-auth AuthorizedSession (incl. 401 refresh-and-resend)",
+    "real OS threads for the callers of threaded scenarios (scheduled by baton passing, pre-empted via sys.settrace)",
+    "the emitted transports' own channel construction (create_channel path) in part of C03's runs",
 ]
 COMPONENTS_STUB = [
-    "gRPC C-core and sockets (SimChannel / SimAioChannel)", "HTTP connection (SimHTTPAdapter.send)",
+    "gRPC C-core and sockets (SimChannel / SimAioChannel; api-core's create_channel returns one when the transport builds its own channel)",
+    "HTTP connection (SimHTTPAdapter.send)", "credentials (anonymous, or a refreshable self-describing stand-in)",
+    "locks created by emitted code while caller threads are scheduled (cooperative SimLock)",
     "server (scripted reference model built from the input descriptors)",
     "clocks: time.sleep/monotonic/time, api-core utcnow, asyncio loop time (SimClock/SimLoop)",
     "retry jitter RNG, uuid4 entropy", "pandoc (pass-through stub: binary not installed)",
